@@ -302,7 +302,12 @@ def parse_version_info(version_str: str, raw_pattern: str = "vYYYY0M.BUILD[-TAG]
         raise version.PatternError(err_msg)
     else:
         field_values = match.groupdict()
-        return parse_field_values_to_vinfo(field_values)
+        try:
+            return parse_field_values_to_vinfo(field_values)
+        except (ValueError, OverflowError) as ex:
+            # e.g. "v2021.02.30": matches the pattern but is not a date
+            err_msg = f"Invalid date in version string '{version_str}': {ex}"
+            raise version.PatternError(err_msg) from ex
 
 
 def is_valid(version_str: str, raw_pattern: str = "vYYYY.BUILD[-TAG]") -> bool:
